@@ -88,8 +88,81 @@ def _fault_differential(case):
     return len(a), res
 
 
+REAL_MP = r'''
+import os, sys, multiprocessing, hashlib, logging, time
+logging.disable(logging.CRITICAL)
+os.environ["USE_MULTIPROCESSING"] = "True"
+sys.path.insert(0, sys.argv[2] + "/src")
+from hashstore.filehashstore import FileHashStore
+root = sys.argv[1]
+data = root + "-in.bin"
+open(data, "wb").write(b"A" * 5000)
+store = FileHashStore(dict(store_path=root, store_depth=3, store_width=2, store_algorithm="SHA-256",
+                           store_metadata_namespace="ns://x"))
+assert store.use_multiprocessing
+cid = hashlib.sha256(b"A" * 5000).hexdigest()
+store.store_object(None, data)
+def work(i):
+    n = 0
+    for k in range(int(sys.argv[3])):
+        pid = "p%d" % ((i + k) % 2)
+        for call in (lambda: store.tag_object(pid, cid), lambda: store.store_metadata(pid, data),
+                     lambda: store.delete_object(pid), lambda: store.store_object(pid, data),
+                     lambda: store.delete_metadata(pid), lambda: store.delete_object(pid)):
+            try:
+                call()
+            except Exception:
+                pass
+            n += 1
+    return n
+ctx = multiprocessing.get_context("fork")
+with ctx.Pool(4) as pool:
+    res = pool.map(work, range(4))
+lists = [list(store.object_locked_pids_mp), list(store.object_locked_cids_mp), list(store.reference_locked_pids_mp),
+         list(store.metadata_locked_docs_mp)]
+print("CALLS", sum(res), "LOCKED", lists)
+sys.exit(3 if any(lists) else 0)
+'''
+
+
+def real_processes(rep, tier):
+    """Part c (conformance, sampled): real forked workers with the REAL multiprocessing primitives contend on two
+    shared pids and one cid.  Only termination and 'nothing left locked' are judged (a real run is always a genuine
+    execution, so a hang here is a true violation; silence proves nothing)."""
+    import subprocess
+    import sys
+    d = os.path.join(common.scratch(), "c16-real")
+    os.makedirs(d, exist_ok=True)
+    rounds = "25" if tier == "quick" else "120"
+    import signal
+    proc = subprocess.Popen([sys.executable, "-c", REAL_MP, os.path.join(d, "store"), common.REPO, rounds],
+                            stdout=subprocess.PIPE, stderr=subprocess.PIPE, text=True, start_new_session=True)
+    try:
+        out, err = proc.communicate(timeout=90 if tier == "quick" else 400)
+    except subprocess.TimeoutExpired:
+        os.killpg(proc.pid, signal.SIGKILL)  # the whole session: pool workers and Manager servers
+        proc.communicate()
+        rep.violation({"kind": "real-processes", "what": "forked worker processes in multiprocessing mode did not terminate"},
+                      {"rounds": rounds})
+        rep.coverage["real_process_run"] = "timed out"
+        return
+
+    class R:
+        pass
+    r = R()
+    r.stdout, r.stderr, r.returncode = out, err, proc.returncode
+    rep.coverage["real_process_run"] = (r.stdout.strip().splitlines() or ["?"])[-1][:200]
+    if r.returncode == 3:
+        rep.violation({"kind": "real-processes", "what": "an identifier was left locked after forked workers finished"},
+                      {"out": r.stdout[-300:]})
+    elif r.returncode != 0:
+        rep.violation({"kind": "real-processes", "what": "the multiprocessing-mode run with forked workers failed"},
+                      {"err": r.stderr[-600:]})
+
+
 def main(tier):
     rep = common.Report("C16", tier, "model_checking")
+    real_processes(rep, tier)
     from .. import fscen
     from ..par import pmap
     nf = 0
